@@ -41,7 +41,14 @@ Definition g_send_headers (extra : md) (g : gst) : gst :=
   else mkG (g_hdr g ++ extra) true (g_trl g) (g_hdr g ++ extra) (g_half g) (g_resp g) (g_over g).
 
 Definition g_step (sh : shape) (g : gst) (st : step) : gst * (list cobs * list sobs) :=
-  if g_over g then (g, stuck) else
+  if g_over g then
+    (* the call is over for the client; whatever the handler still does reaches nobody *)
+    match st with
+    | SetH _ | SendH _ | SetT _ | S2C _ | RecvEOF => (g, ([], []))
+    | Ret _ => (g, ((if is_invoke sh then [] else [CHdr (canon_md (if g_sent g then g_chdr g else [])); CTrl []]), []))
+    | _ => (g, stuck)
+    end
+  else
   match st with
   | C2S m => if g_half g then (g, stuck) else (g, ([CSent true], [SGot m]))
   | S2C m =>
@@ -73,9 +80,16 @@ Definition g_step (sh : shape) (g : gst) (st : step) : gst * (list cobs * list s
                     end in
       (mkG (g_hdr g1) true (g_trl g1) (g_chdr g1) (g_half g1) None true,
        (c ++ [CHdr (canon_md (g_chdr g1)); CTrl (canon_md (g_trl g))], []))
-  | Cancel =>
+  | CtxEnd dl =>
       (mkG (g_hdr g) (g_sent g) (g_trl g) (g_chdr g) (g_half g) None true,
-       ([CEnd OCancelled; CHdr (canon_md (if g_sent g then g_chdr g else [])); CTrl []],
+       ([CEnd (if dl then ODeadline else OCancelled)]
+        ++ (if is_invoke sh then [CHdr (canon_md (if g_sent g then g_chdr g else [])); CTrl []] else []),
+        [SDone true]))
+  | Cancel dl =>
+      (* a deadline that expires on the client ends the call there with DeadlineExceeded; the server
+         learns of either through a stream reset *)
+      (mkG (g_hdr g) (g_sent g) (g_trl g) (g_chdr g) (g_half g) None true,
+       ([CEnd (if dl then ODeadline else OCancelled); CHdr (canon_md (if g_sent g then g_chdr g else [])); CTrl []],
         [SDone true] ++ (if srv_has_stream sh && negb (g_half g) then [SRecvErr] else [])))
   end.
 
@@ -89,12 +103,18 @@ Fixpoint g_steps (sh : shape) (g : gst) (l : list step) : list cobs * list sobs 
   end.
 
 Definition grpc_run (sc : scenario) : transcript :=
-  if precancel sc then ([CEnd OCancelled; CHdr []; CTrl []], [])
+  if precancel sc
+  then ([CEnd (match pre sc with CtxExpired => ODeadline | _ => OCancelled end); CHdr []; CTrl []], [])
   else
     let sh := shp sc in
     let c0 := if cs sh then [] else if is_invoke sh then [] else [CSent true; CClosed] in
     let '(c, sv) := g_steps sh (g_init (negb (cs sh))) (steps sc) in
-    (c0 ++ c, [SEntered (if cs sh then -1 else req sc)] ++ sv).
+    (* request metadata travels as header fields of the request: the handler sees what was attached *)
+    (c0 ++ c, [SEntered (if cs sh then -1 else req sc); SIncoming (canon_md (omd sc))] ++ sv).
 
 (* unknown method: the server answers Unimplemented *)
 Definition grpc_unknown_method_code : Z := 12.
+
+(* client misuse on a real connection (grpc-go clientStream): SendMsg after CloseSend is refused with
+   an Internal error, a second CloseSend does nothing *)
+Definition g_misuse (k : misuse) : mres := match k with SendAfterCloseSend => MErr 13 | CloseSendTwice => MNil end.
